@@ -341,9 +341,20 @@ class LRI(dict):
     def __ne__(self, other):
         return not (self == other)
 
+    def __or__(self, other):
+        # like len() and 'in': a snapshot must not see an eviction's
+        # delete without its insert
+        with self._lock:
+            return super().__or__(other)
+
+    def __ror__(self, other):
+        with self._lock:
+            return super().__ror__(other)
+
     def __repr__(self):
         cn = self.__class__.__name__
-        val_map = super().__repr__()
+        with self._lock:
+            val_map = super().__repr__()
         return ('%s(max_size=%r, on_miss=%r, values=%s)'
                 % (cn, self.max_size, self.on_miss, val_map))
 
